@@ -433,12 +433,12 @@ class TermCanvas(Canvas):
 
         if width > self.width:
             # grow
-            for y in range(self.height):
-                self.term[y] += [self.empty_char()] * (width - self.width)
+            for row in range(self.height):
+                self.term[row] += [self.empty_char()] * (width - self.width)
         elif width < self.width:
             # shrink
-            for y in range(self.height):
-                self.term[y] = self.term[y][:width]
+            for row in range(self.height):
+                self.term[row] = self.term[row][:width]
 
         self.width = width
 
